@@ -71,6 +71,10 @@ func parentSetup(tier string, seed int64, work string) ([]string, error) {
 
 func run(c *harness.Ctx, i int) {
 	desync.Digest = desync.SHA512256{}
+	if i%20 == 6 {
+		visibleKill(c)
+		return
+	}
 	switch i % 6 {
 	case 0, 1, 2:
 		storeCrash(c, i)
@@ -287,6 +291,120 @@ func storeCrash(c *harness.Ctx, i int) {
 
 // ---------------------------------------------------------------------------
 
+// visibleKill: the writer is killed at the very instant a chunk's final name becomes visible. Large chunks make the
+// time a writer needs for the data long against that instant; the store is either one directory tree or "sharded":
+// the chunk directories are symlinks into another filesystem (tmpfs), so that the store root and the chunk's directory
+// are on different filesystems (a rename across them is impossible).
+func visibleKill(c *harness.Ctx) {
+	rng := c.Rng
+	dir := c.CaseDir()
+	uncompressed := rng.Intn(2) == 0
+	sharded := rng.Intn(3) != 0
+	nch := 1 + rng.Intn(3)
+	size := (1 + rng.Intn(6)) << 20
+	blob := make([]byte, nch*size)
+	rng.Read(blob)
+	idx := desync.Index{Index: desync.FormatIndex{FeatureFlags: desync.CaFormatSHA512256, ChunkSizeMin: uint64(size), ChunkSizeAvg: uint64(size), ChunkSizeMax: uint64(size)}}
+	for k := 0; k < nch; k++ {
+		idx.Chunks = append(idx.Chunks, desync.IndexChunk{Start: uint64(k * size), Size: uint64(size), ID: dsu.Sum(blob[k*size : (k+1)*size])})
+	}
+	store := filepath.Join(dir, "store")
+	os.MkdirAll(store, 0755)
+	ext := ".cacnk"
+	if uncompressed {
+		ext = ""
+	}
+	var finals []string
+	var shm string
+	if sharded {
+		var err error
+		shm, err = os.MkdirTemp("/dev/shm", "verif-c08-")
+		if err != nil {
+			c.Inconclusive("no second filesystem: %v", err)
+			return
+		}
+		defer os.RemoveAll(shm)
+	}
+	for _, ch := range idx.Chunks {
+		s := ch.ID.String()
+		if sharded {
+			os.MkdirAll(filepath.Join(shm, s[:4]), 0755)
+			os.Symlink(filepath.Join(shm, s[:4]), filepath.Join(store, s[:4]))
+		}
+		finals = append(finals, filepath.Join(store, s[:4], s+ext))
+	}
+	file := filepath.Join(dir, "blob")
+	dsu.WriteFile(file, blob)
+	idxFile := filepath.Join(dir, "blob.caibx")
+	dsu.Must(dsu.WriteIndex(idxFile, idx))
+	cfgFile := filepath.Join(dir, "config.json")
+	dsu.WriteFile(cfgFile, []byte(fmt.Sprintf(`{"store-options": {%q: {"uncompressed": %v}}}`, store, uncompressed)))
+	c.Info("visible-kill sharded=%v uncompressed=%v chunks=%d of %d MiB", sharded, uncompressed, nch, size>>20)
+	c.LogInfo()
+	cmd := exec.Command(cliPlain, "--config", cfgFile, "chop", "-n", "1", "-s", store, idxFile, file)
+	cmd.Env = append(os.Environ(), "HOME="+dir)
+	var stderr bytes.Buffer
+	cmd.Stderr = &stderr
+	dsu.Must(cmd.Start())
+	done := make(chan error, 1)
+	go func() { done <- cmd.Wait() }()
+	seen := ""
+	var werr error
+	exited := false
+poll:
+	for {
+		for _, f := range finals {
+			if _, err := os.Lstat(f); err == nil {
+				seen = f
+				cmd.Process.Kill()
+				break poll
+			}
+		}
+		select {
+		case werr = <-done:
+			exited = true
+			break poll
+		default:
+		}
+	}
+	if !exited {
+		werr = <-done
+	}
+	c.Count("visible_kill_runs", 1)
+	if seen == "" {
+		// the writer ended before any chunk became visible (an error, e.g. a store layout it refuses): nothing to decide
+		c.Count("visible_kill_nothing_visible", 1)
+		c.Sample(map[string]interface{}{"leg": "visible-kill", "sharded": sharded, "exit": fmt.Sprint(werr), "stderr": strings.TrimSpace(stderr.String())})
+		return
+	}
+	for k, f := range finals {
+		b, err := os.ReadFile(f)
+		if err != nil {
+			continue
+		}
+		data := b
+		if !uncompressed {
+			data, err = zdec.DecodeAll(b, nil)
+			if err != nil {
+				c.Violation("partial-chunk-visible", "writer killed the moment %s became visible (sharded=%v): the file (%d bytes) is not a complete zstd frame: %v", filepath.Base(seen), sharded, len(b), err)
+				return
+			}
+		}
+		if dsu.Sum(data) != idx.Chunks[k].ID {
+			c.Violation("partial-chunk-visible", "writer killed the moment %s became visible (sharded=%v, uncompressed=%v): %d of %d bytes are under the chunk name and do not hash to it", filepath.Base(seen), sharded, uncompressed, len(b), size)
+			return
+		}
+		c.Count("chunk_files_validated", 1)
+	}
+	if died(werr) {
+		c.Count("children_died_at_crash_point", 1)
+		c.NonTrivial("visible-kill|sharded=%v|u%v|%dMiB", sharded, uncompressed, size>>20)
+	}
+	c.Sample(map[string]interface{}{"leg": "visible-kill", "sharded": sharded, "uncompressed": uncompressed, "chunks": nch, "MiB": size >> 20, "child_died": died(werr)})
+}
+
+// ---------------------------------------------------------------------------
+
 func extractCrash(c *harness.Ctx, i int) {
 	rng := c.Rng
 	dir := c.CaseDir()
@@ -298,8 +416,6 @@ func extractCrash(c *harness.Ctx, i int) {
 	n := []int{1, 4, 10}[rng.Intn(3)]
 	k := int64(1 + rng.Intn(len(idx.Chunks)))
 	destKind := []string{"absent", "old"}[rng.Intn(2)]
-	c.Info("extract-crash inplace=%v n=%d kill-at-request=%d chunks=%d dest=%s", inPlace, n, k, len(idx.Chunks), destKind)
-	c.LogInfo()
 	store := dsu.NewMemStore("s")
 	for _, ch := range idx.Chunks {
 		store.PutRaw(ch.ID, blob[ch.Start:ch.Start+ch.Size])
@@ -332,7 +448,18 @@ func extractCrash(c *harness.Ctx, i int) {
 	defer srv.Close()
 	idxFile := filepath.Join(dir, "blob.caibx")
 	dsu.Must(dsu.WriteIndex(idxFile, idx))
-	dest := filepath.Join(dir, "dest")
+	// destination names: ordinary, odd, and so long that a temporary sibling name (prefix and random suffix added) does
+	// or does not fit into NAME_MAX any more
+	destName := "dest"
+	switch rng.Intn(6) {
+	case 0:
+		destName = ".hidden dest with blanks"
+	case 1:
+		destName = strings.Repeat("n", []int{200, 240, 243, 244, 245, 250, 254, 255}[rng.Intn(8)])
+	case 2:
+		destName = "d\xc3\xa9st-\xe2\x82\xac"
+	}
+	dest := filepath.Join(dir, destName)
 	old := []byte("old content\n")
 	if destKind == "old" {
 		if inPlace {
@@ -340,6 +467,8 @@ func extractCrash(c *harness.Ctx, i int) {
 		}
 		dsu.WriteFile(dest, old)
 	}
+	c.Info("extract-crash inplace=%v n=%d kill-at-request=%d chunks=%d dest=%s name-length=%d", inPlace, n, k, len(idx.Chunks), destKind, len(destName))
+	c.LogInfo()
 	args := []string{"extract", "-n", fmt.Sprint(n), "-s", srv.URL, "-e", "1"}
 	if inPlace {
 		args = append(args, "-k")
@@ -379,7 +508,7 @@ func extractCrash(c *harness.Ctx, i int) {
 				return
 			}
 		}
-		c.NonTrivial("extract|tmp|n%d|k%d|%s", n, k, destKind)
+		c.NonTrivial("extract|tmp|n%d|k%d|%s|name%d", n, k, destKind, len(destName)/100)
 	} else {
 		// what is in place now?
 		part, _ := os.ReadFile(dest)
